@@ -879,6 +879,8 @@ def ext_option_map(e, m, args):
     opt, clo = args
     if isinstance(clo, tuple) and clo and clo[0] == "ctor":
         return ("None",) if opt[0] == "None" else ("Some", ("enum", clo[1], [opt[1]]))
+    if isinstance(clo, tuple) and clo and clo[0] == "fnitem":
+        return ("None",) if opt[0] == "None" else ("Some", e.call(clo[1], [opt[1]]))
     cty = re.search(r"(\{closure@[^}]*\})", m.group(0)).group(1)
     if opt[0] == "None":
         return ("None",)
